@@ -372,7 +372,7 @@ ini_sect_val_find(const ini_p ini, const size_t sect_off,
 
 	/* Look for value. */
 	while (0 == ini_sect_val_enum(ini, sect_off, &i, &name, &name_size, NULL, NULL)) {
-		if (0 == mem_cmpin(name, name_size, val_name, val_name_size))
+		if (0 == mem_cmpn(name, name_size, val_name, val_name_size))
 			return (i); /* Found! */
 		i ++;
 	}
